@@ -452,6 +452,45 @@ def run_menu(idx):
     return R(None, name, steps=1)
 
 
+# ---------------------------------------------------------------------------
+# ONE aggregator object in two roles over time: a plain fold of a target, and the leaf of a Group
+
+ROLE_OBJECTS = {
+    'sum': (lambda: Sum(), [1, 2, 3, 4, 5]),
+    'sum-float': (lambda: Sum(init=float), [1, 2, 3, 4, 5]),
+    'count': (lambda: Count(), [1, 2, 3, 4, 5]),
+    'flatten': (lambda: Flatten(), [[1], [2, 3], [4], [5, 6]]),
+    'merge': (lambda: Merge(), [{'a': 1}, {'b': 2, 'c': 0}, {'a': 3}]),
+    'fold': (lambda: Fold(T, init=list, op=lambda acc, x: acc + [x]), [1, 2, 3, 4]),
+}
+ROLE_KEY = lambda x: len(x) % 2 if hasattr(x, '__len__') else x % 2
+
+
+def run_roles(case):
+    name, roles = case
+    mk, items = ROLE_OBJECTS[name]
+    shared = mk()
+
+    def use(obj, role):
+        spec = obj if role == 'plain' else Group({ROLE_KEY: obj}) if role == 'group-leaf' else Group(obj)
+        try:
+            return ('ok', desc(glom(list(items), spec)))
+        except Exception as e:
+            return ('err', type(e).__name__)
+    for i, role in enumerate(roles):
+        want, got = use(mk(), role), use(shared, role)
+        if want != got:
+            return R({'expected': 'use #%d (%s) of the shared %s object gives what a fresh object gives: %r' % (i + 1, role, name, want),
+                      'observed': repr(got), 'roles': roles}, 'roles')
+    return R(None, 'roles:%d' % len(roles), nontrivial=len(set(roles)) > 1, steps=len(roles), tags={name} | set(roles))
+
+
+def gen_roles():
+    R_ = ('plain', 'group-leaf', 'group-top')
+    seqs = [list(p) for n in (1, 2, 3) for p in itertools.product(R_, repeat=n)]
+    return [[name, seq] for name in ROLE_OBJECTS for seq in seqs]
+
+
 def subs(tier, only=None):
     from ..engine import fast_tracebacks
     fast_tracebacks()
@@ -462,6 +501,10 @@ def subs(tier, only=None):
             min_nontrivial=20000, min_outcomes=2,
             required_tags=['dict', 'limit'] + ['key:' + k for k in INT_KEYS] + ['list:T', 'list:skipodd', 'agg:first', 'agg:max', 'agg:min', 'agg:avg',
                                                                                   'agg:sum', 'agg:count', 'agg:flatten', 'agg:merge']),
+        Sub('aggregator-roles', gen_roles(), run_roles,
+            rule='case = (Sum | Count | Flatten | Merge | Fold object, sequence of 1-3 uses as plain fold / leaf below a key level / top-level leaf of a Group): '
+                 'every use of the ONE object gives what a fresh object gives', min_nontrivial=100, min_outcomes=2,
+            required_tags=['plain', 'group-leaf', 'group-top', 'flatten', 'sum']),
         Sub('nested-and-reuse', list(range(len(menu()))), run_menu, rule='fixed menu: Group objects nested in Group leaves and re-used',
             min_nontrivial=5, min_outcomes=5, parallel=False),
     ]
